@@ -63,6 +63,11 @@ def h_pack(ctx, twin=False, form=None):
                                                  u.packet_type == ptype, u.seq_flags == sf, u.pack() == ref),
                             [lambda: SpacePacketHeader.unpack(bytes.fromhex("3fff7ffe1234")), lambda: h2.pack(),
                              lambda: SpacePacketHeader.unpack(bytes(6))])
+    # the reported total length follows the data length at every moment (read, assign, read again)
+    dl2 = ctx.int("dl2", 0, 65535)
+    h.packet_len, h.header_len
+    h.data_len = dl2
+    ctx.holds("packet_len follows an assigned data length", sym_and(h.packet_len == dl2 + 7, h.pack() == ctx.bytes_of(ref_octets(ver, ptype, shf, apid, sf, sc, dl2))))
     if twin:
         ctx.holds("twin", raw != ref)
 
